@@ -147,6 +147,7 @@ struct World {
     fast: bool,
     // alternative API routes for the same model action (histories whose id starts with "rt_"): 0 = off
     route: u64,
+    cur_idx: usize,
 }
 
 static mut W: Option<World> = None;
@@ -1296,6 +1297,7 @@ fn reset_world(pad: usize) {
             in_sweep: false,
             fast: false,
             route: 0,
+            cur_idx: 0,
         });
         crate::LIVE_BLOCKS = 0;
     }
@@ -1327,6 +1329,7 @@ fn run_history(id: &str, mode: &str, body: &str, pad: usize, out: &mut impl Writ
     let mut line = String::with_capacity(512);
     for (idx, a) in ops.iter().enumerate() {
         let w_ = w();
+        w_.cur_idx = idx;
         w_.dtor_log.clear();
         w_.script_res.clear();
         w_.traces = 0;
@@ -1525,7 +1528,74 @@ impl Write for RawOut {
 }
 
 
+extern "C" {
+    fn signal(sig: i32, handler: usize) -> usize;
+    fn write(fd: i32, buf: *const u8, n: usize) -> isize;
+}
+
+/// The library aborts the process (C16; double panic). The destructors started so far in the current
+/// call are the model's choice oracle for that call: print them ("A <idx> <id,id,..>") before dying.
+/// Only async-signal-safe operations: no allocation, one write(2), then the default action again.
+extern "C" fn on_fatal(sig: i32) {
+    unsafe {
+        let mut buf = [0u8; 1024];
+        let mut n = 0usize;
+        let mut put = |b: u8, n: &mut usize| {
+            if *n < 1000 {
+                buf[*n] = b;
+                *n += 1;
+            }
+        };
+        fn digits(mut v: u64, out: &mut [u8; 20]) -> usize {
+            let mut i = 20;
+            if v == 0 {
+                i -= 1;
+                out[i] = b'0';
+            }
+            while v > 0 {
+                i -= 1;
+                out[i] = b'0' + (v % 10) as u8;
+                v /= 10;
+            }
+            i
+        }
+        if let Some(w_) = W.as_ref() {
+            put(b'\n', &mut n);
+            put(b'A', &mut n);
+            put(b' ', &mut n);
+            let mut d = [0u8; 20];
+            let i = digits(w_.cur_idx as u64, &mut d);
+            for k in i..20 {
+                put(d[k], &mut n);
+            }
+            put(b' ', &mut n);
+            for (j, id) in w_.dtor_log.iter().enumerate() {
+                if j > 0 {
+                    put(b',', &mut n);
+                }
+                let i = digits(*id as u64, &mut d);
+                for k in i..20 {
+                    put(d[k], &mut n);
+                }
+            }
+            put(b'\n', &mut n);
+            let _ = write(1, buf.as_ptr(), n);
+        }
+        signal(sig, 0); // SIG_DFL: returning re-executes the faulting instruction / re-raises
+        if sig == 6 {
+            extern "C" {
+                fn raise(sig: i32) -> i32;
+            }
+            raise(6);
+        }
+    }
+}
+
 pub fn run_main(args: &[String]) {
+    unsafe {
+        signal(4, on_fatal as usize); // SIGILL: core::intrinsics::abort
+        signal(6, on_fatal as usize); // SIGABRT: std::process::abort, sanitizer reports
+    }
     // run <skip> <pad> [noquarantine]
     unsafe { crate::NOTE_FREE = note_free };
     shim::install(hook);
